@@ -394,8 +394,8 @@ Definition rows_agree (tol : Q) (mrows : list (list (nat * V3 Q)))
   flat_map (fun a =>
     let ir := nth a irows [] in
     flat_map (fun p : nat * bool => if snd p then [] else [(a, fst p)])
-      (mapi (fun i mr =>
-               let mrow := sort_cols (map (fun c => (fst c, comp QOps a (snd c))) mr) in
+      (mapi (fun i (mr : list (nat * V3 Q)) =>
+               let mrow := sort_cols (map (fun c => (fst c, comp a (snd c))) mr) in
                let sc := qabs_max (map snd mrow) in
                let bound := Qred (tol * (if Qle_bool 1 sc then sc else 1)) in
                (i, row_agree bound mrow (nth i ir [])))
